@@ -379,6 +379,11 @@ def main(argv):
             continue
         if a == '--explain':
             return explain(argv[i + 1])
+        if a == '--no-evidence':
+            global EVIDENCE
+            EVIDENCE = os.path.join(CACHE, 'selftest-evidence')
+            i += 1
+            continue
         if a == '--all':
             props += all_props()
         else:
